@@ -119,7 +119,9 @@ class Gen:
             # tj3CompressFromYUV8 has three planes: keep the colourspace parameter three-component and lossy
             # (a 4-component TJPARAM_COLORSPACE / TJPARAM_LOSSLESS with YUV input over-reads the plane array on
             # ANY instance: not a history effect, see design/C12.md "Side observations")
-            return ["set %d 0" % P_LOSSLESS, "set %d %d" % (P_CS, r.range(0, 2)), "cy %d %d %d %s" % (w, h, r.range(0, 50), self.buf(probe))]
+            ss = r.range(0, 6)
+            return ["set %d 0" % P_LOSSLESS, "set %d %d" % (P_SUBSAMP, ss), "set %d %d" % (P_CS, 2 if ss == SGRAY else r.range(0, 1)),
+                    "cy %d %d %d %s" % (w, h, r.range(0, 50), self.buf(probe))]
         if k < 8:
             return "ey %d %d %d %d" % (w, h, r.range(0, 50), self.pf())
         return "lc %d %d %d %d %d %d %d" % (w, h, r.range(0, 50), self.pf(), r.range(0, 6), r.range(1, 100),
@@ -141,7 +143,7 @@ class Gen:
             return ["d %d %s %d" % (prec, j, self.pf())]
         if k < 10:
             # header, cropping region, decompress, reset the region
-            i, j = self.jref(kinds, [x for x in LIB if LIB[x] and LIB[x][4] == 8])
+            i, j = self.jref(kinds, [x for x in LIB if LIB[x] and LIB[x][4] == 8 and x != 23])
             w, h, ss, ll, prec, prog, nc = LIB[i]
             sf = r.choice(SF) if r.chance(1, 2) else (1, 1)
             sw, sh = scaled(w, sf), scaled(h, sf)
@@ -233,11 +235,11 @@ class Gen:
             for _ in range(r.range(2, 5)):
                 i, j = self.jref(HIST_KINDS if len(ops) else [""], [x for x in LIB if LIB[x] and LIB[x][4] == 8 and not LIB[x][3]])
                 fancy = r.range(0, 1)
-                skip = r.choice([0, 0, 1, 3, 8, 16, 17])
+                skip = r.choice([0, 0, 2, 8, 16, 18])    # even start lines only, see design/C12.md "Side observations"
                 ops.append("d %s %d %d %d %d" % (j, fancy, skip, r.choice([1, 2, 7, 16, 17, 100]), r.range(0, 1)))
             # the probe: a clean stream
             i, j = self.jref([""], [x for x in LIB if LIB[x] and LIB[x][4] == 8 and not LIB[x][3] and x != 23])
-            ops.append("d %s %d %d %d %d" % (j, r.range(0, 1), r.choice([0, 1, 3, 8, 16, 17]), r.choice([1, 2, 7, 16, 17]), r.range(0, 1)))
+            ops.append("d %s %d %d %d %d" % (j, r.range(0, 1), r.choice([0, 2, 8, 16, 18]), r.choice([1, 2, 7, 16, 17]), r.range(0, 1)))
             return "L d ; " + " ; ".join(ops)
         ops = []
         for _ in range(r.range(2, 5)):
